@@ -1750,6 +1750,16 @@ func ruleWalReclaim(r *Report) {
 				sweep = true
 			}
 		}
+		// the sweep is the whole reclaim on its path: a file removed in front of the listing is removed out of order (the
+		// newest of the files first — a kill behind it leaves older log files next to the new table, the next Open
+		// replays them over it and an acknowledged delete or overwrite is undone)
+		for _, x := range rm {
+			for _, l := range lists {
+				if x.Block != l.Block && reachFrom(x.Block, nil)[l.Block] || x.Block == l.Block && precedes(x, l) {
+					r.Bad(rule, rule+"/"+FuncKey(f)+"/sweep-oldest-first", x.Pos(), "a log file is removed before the directory is listed and swept in name order: the file the rotation returned goes first and its older siblings after it — killed in between, the older files stay next to the table that already holds their records, the next Open replays them as the newest data and an acknowledged Delete or overwrite is undone (wal/{000000.wal: a=1, 000001.wal: delete a}, flush, kill after the first unlink → Get(a) = 1)")
+				}
+			}
+		}
 		// a guard in front of the sweep that compares the directory part of the path: filepath.Split leaves the trailing
 		// separator on it, so a raw comparison with a joined path never holds and the sweep is dead code
 		isSplitDir := func(x ssa.Value) bool {
@@ -2283,6 +2293,63 @@ func ruleStagingNameRecognised(r *Report) {
 			}
 			if !hit {
 				good = false
+			}
+		}
+		// … and the test that recognises the leftover is not standing behind one that takes the same name for a table
+		if good && pr.what == "flush" {
+			tableLead := "sstable_"
+			for path, pk := range p.All {
+				if shortPkg(path) == "simpledb" && strings.HasPrefix(path, modPath) && pk.Types != nil {
+					if c, ok := pk.Types.Scope().Lookup("SSTablePattern").(*types.Const); ok && c.Val().Kind() == constant.String {
+						tableLead = constant.StringVal(c.Val())
+						if i := strings.Index(tableLead, "%"); i >= 0 {
+							tableLead = tableLead[:i]
+						}
+					}
+				}
+			}
+			type ptest struct {
+				b *ssa.BasicBlock
+				t string
+			}
+			shadow := ""
+			if cf := p.Func(pr.consumer); cf != nil {
+				for _, g := range closuresOf(cf) {
+					var tests []ptest
+					for _, b := range liveBlocks(g) {
+						cnd, _, _, _, _, ok := effCond(b)
+						if !ok {
+							continue
+						}
+						valueDependsOn(cnd, func(x ssa.Value) bool {
+							if c, isC := x.(*ssa.Call); isC && CalleeKey(c) == "strings.HasPrefix" {
+								if k, isK := c.Call.Args[1].(*ssa.Const); isK && k.Value != nil && k.Value.Kind() == constant.String {
+									tests = append(tests, ptest{b, constant.StringVal(k.Value)})
+								}
+							}
+							return false
+						})
+					}
+					for _, tt := range tests {
+						// a test that accepts the staging name and table names alike
+						if tt.t == "" || !strings.HasPrefix(lead, tt.t) || !strings.HasPrefix(tableLead, tt.t) {
+							continue
+						}
+						guarded := false
+						for _, st := range tests {
+							if st.t != "" && strings.HasPrefix(lead, st.t) && !strings.HasPrefix(tableLead, st.t) && st.b != tt.b && dominates(st.b, tt.b) {
+								guarded = true
+							}
+						}
+						if !guarded {
+							shadow = tt.t
+						}
+					}
+				}
+			}
+			if shadow != "" {
+				r.Bad(rule, key, sites[0].Pos(), fmt.Sprintf("the flush staging folder's name starts with %q, and the recovery walk reaches its test for the table prefix %q without having tested for the leftover first: the folder a killed flush leaves behind is taken for a table (its name does not parse as a table number), and every later Open fails", lead, shadow))
+				continue
 			}
 		}
 		if good {
